@@ -49,6 +49,66 @@ def gen_cases(chk):
     return cases
 
 
+def genuine_fault_runs(chk, stats):
+    """Faults that the built-in samplers raise THEMSELVES (not injected): a surrogate sampler refusing a history that holds
+    a NaN loss next to losses outside the float32 range (XGBoost rejects NaN labels after it has prepared the labels), a
+    best-batch sampler asked for more parents than there are points.  calibrate() must propagate the exception with the
+    history exactly as it was before the call - every array bit for bit - and no thread left."""
+    import contextlib
+    import io
+    import threading
+
+    import numpy as np
+    from black_it.calibrator import Calibrator
+
+    from props import real_lineups as rl
+    from props.c02 import ExtremeLoss
+
+    rng = chk.rng
+    n = 0
+    surrogates = ["xgb", "xgb", "rf", "gp", "bestbatch", "cors", "pso"]
+    for li in range(8 if chk.tier == "quick" else 60):
+        kind = surrogates[li % len(surrogates)]
+        kinds = [("halton", 2), (kind, 2 if kind != "bestbatch" else 9)]
+        vals = [1.0, 1e39, 2.5, float("nan"), -3.5e38, 0.25, 3.0, float("nan"), 1e300]
+        if li % 3 == 2:
+            rng.shuffle(vals)
+        samplers = [rl.make_sampler(k, bs, 5 + li) for k, bs in kinds]
+        with contextlib.redirect_stdout(io.StringIO()):
+            cal = Calibrator(loss_function=ExtremeLoss(vals), real_data=np.zeros((6, 1)),
+                             model=lambda th, N, seed: np.full((N, 1), float(th[0])),  # noqa: N803
+                             parameters_bounds=[[0.0, -1.0], [1.0, 1.0]], parameters_precision=[0.01, 0.01], ensemble_size=1,
+                             samplers=samplers, verbose=False, random_state=rng.below(2**31), n_jobs=1)
+        for b in range(6):
+            before = {"params": cal.params_samp.tobytes(), "losses": cal.losses_samp.tobytes(), "series": cal.series_samp.tobytes(),
+                      "bnums": cal.batch_num_samp.tobytes(), "methods": cal.method_samp.tobytes(),
+                      "counters": (int(cal.n_sampled_params), int(cal.current_batch_index))}
+            raised = None
+            with contextlib.redirect_stdout(io.StringIO()), np.errstate(all="ignore"):
+                try:
+                    cal.calibrate(1)
+                except Exception as e:  # noqa: BLE001
+                    raised = f"{type(e).__name__}: {str(e)[:80]}"
+            n += 1
+            if raised is None:
+                stats["genuine:batch completed"] += 1
+                continue
+            stats[f"genuine:raised:{kind}:{raised.split(':')[0]}"] += 1
+            after = {"params": cal.params_samp.tobytes(), "losses": cal.losses_samp.tobytes(), "series": cal.series_samp.tobytes(),
+                     "bnums": cal.batch_num_samp.tobytes(), "methods": cal.method_samp.tobytes(),
+                     "counters": (int(cal.n_sampled_params), int(cal.current_batch_index))}
+            changed = [k for k in before if before[k] != after[k]]
+            alive = [t.name for t in threading.enumerate() if t is not threading.main_thread() and t.is_alive()
+                     and not t.daemon]
+            if changed or alive:
+                chk.violation({"kind": "oracle", "clause": "genuine-fault-history-changed" if changed else "genuine-fault-thread-alive"},
+                              {"failed": "oracle:fault", "detail": f"line-up {kinds}, losses script {vals}: batch {b} raised {raised}; "
+                               f"changed by the failed call: {changed}; threads alive: {alive}",
+                               "case": {"genuine": {"kinds": kinds, "vals": [repr(v) for v in vals], "batch": b}}})
+                break
+    return n
+
+
 def run(chk, replay=None):
     chk.proof_gate()
     cases = [json.loads(open(replay).read())["case"]] if replay else gen_cases(chk)
@@ -64,13 +124,18 @@ def run(chk, replay=None):
         o["fired"] = fired
         return fails
 
+    if replay and "genuine" in cases[0]:
+        cases = []
     obs, bad, stats, keys, nontriv = cf.run_traces(chk, cases, oracle, lambda c, o: o.get("fired") or any(v["exn"] in (1, 2, 3) for v in o["views"]), label="C11")
+    n_gen = genuine_fault_runs(chk, stats)
     cov = {
-        "evaluations": len(cases), "distinct": len(keys), "distinct_nontrivial": len(nontriv),
+        "evaluations": len(cases) + n_gen, "distinct": len(keys), "distinct_nontrivial": len(nontriv),
+        "genuine_fault_batches": n_gen,
         "rule": "for each line-up (round-robin and RL with a scripted agent, with and without a saving folder, 2-4 batches quick / 2-6 "
                 "thorough) an exception is injected at every invocation index of the model, the loss and each sampler (sub-sampled to "
                 "28 per line-up in the quick tier); the run is followed by calibrate(1); compared with the fault-free twin; "
-                "non-trivial = the fault fired",
+                "non-trivial = the fault fired; plus real built-in samplers that raise by themselves on histories with NaN / out-of-float32 "
+                "losses or too few points (history bytes before = after the failed call)",
         "samples": cf.sample_cases(cases, obs),
         "traces_validated_against_impl": len(cases) - len(bad), "model_impl_disagreements": len(bad),
         "distribution": dict(sorted(stats.items())),
